@@ -19,12 +19,13 @@ Evs == {[e |-> "register", k |-> k, kind |-> "none", seq |-> 0] : k \in Obs}
        \cup {[e |-> "first", k |-> k, kind |-> kd, seq |-> s] : k \in Obs, kd \in {"ok", "ok", "noobs", "err"}, s \in Vals}
        \cup {[e |-> "notify", k |-> k, kind |-> "none", seq |-> s] : k \in Obs, s \in Vals}
        \cup {[e |-> "cancel", k |-> k, kind |-> "none", seq |-> 0] : k \in Obs}
+       \cup {[e |-> "cancelgiveup", k |-> k, kind |-> "none", seq |-> 0] : k \in Obs}
        \cup {[e |-> "giveup", k |-> k, kind |-> "none", seq |-> 0] : k \in Obs}
 Useful(ev) == CASE ev.e = "register" -> o[ev.k].st = "none"
                 [] ev.e = "first" -> o[ev.k].st = "pending"
                 [] ev.e = "giveup" -> o[ev.k].st = "pending"
                 [] ev.e = "notify" -> o[ev.k].st \in {"live", "dead"}
-                [] ev.e = "cancel" -> o[ev.k].st = "live"
+                [] ev.e \in {"cancel", "cancelgiveup"} -> o[ev.k].st = "live"
 Next == /\ Walks > 0 /\ Len(hist) < MaxEvents
         /\ \E ev \in {RandomElement({x \in Evs : Useful(x)} \cup {y \in Evs : y.e = "notify" /\ o[y.k].st = "live"})} :
              \E d \in {RandomElement(Dts)} :
